@@ -138,3 +138,19 @@ CHECKS["C10"] = {
 }
 for _p in ("C01", "C02", "C10"):
     NOT_APPLICABLE.pop(_p, None)
+
+CHECKS["C20"] = {
+    "category": "proof",
+    "text": ("Every fault class of the statement (duplicate channel / sample / (type,name) modifier, sample or modifier data length != bin count, "
+             "bin-wise modifier shared between places with different bin counts, one name with conflicting constraint types or sizes, override of "
+             "the wrong length, undefined POI, lumi without settings, plus the pair 'compensating length errors in two channels') is injected at "
+             "EVERY applicable position of three base skeletons with all numbers symbolic; the real Model.__init__ is executed symbolically on each "
+             "faulty specification and every path must end in InvalidSpecification / InvalidModel / InvalidModifier / InvalidNameReuse - no "
+             "acceptance, no other exception type, no AssertionError (for size-mismatched sharing the safety form: acceptance only if every "
+             "declared cell is bound correctly, proved against the rate oracle). The check found, with native replays, five genuine defects "
+             "(duplicates accepted; compensating length errors; staterror AssertionError; shapefactor bound to parameter 0; lumi override length / "
+             "missing lumi settings) that are repaired by fix: commits."),
+    "note": "the JSON schema validator is skipped (faults are schema-valid by construction); structure bounded by the base skeletons and single faults, numbers symbolic",
+    "technique": "contract-based deductive verification: fault enumeration over structure skeletons, symbolic execution of the real constructor, exception-type obligations; native replay",
+}
+NOT_APPLICABLE.pop("C20", None)
